@@ -1,9 +1,9 @@
 """Parser engine contracts (C06, C07; stack invariant for C02/C05 is future work)."""
 from pv.contract import contract, class_fields, fields
 
-class_fields('Token', type='ref', string='str', start_pos='pos', prefix='str')
+class_fields('Token', type='ref:PythonTokenTypes', string='str', start_pos='pos', prefix='str')
 class_fields('Parser', _omit_dedent_list='list:int', _indent_counter='int', _error_recovery='bool',
-             _start_nonterminal='str', syntax_errors='list:any', stack='list:ref:StackNode', _pgen_grammar='ref')
+             _start_nonterminal='str', syntax_errors='list:any', stack='list:ref:StackNode', _pgen_grammar='ref:Grammar')
 class_fields('BaseParser', _error_recovery='bool', _start_nonterminal='str', _pgen_grammar='ref')
 class_fields('TokenType', contains_syntax='bool', name='str')
 
@@ -40,3 +40,71 @@ contract('parso.parser._token_to_transition',
                   'result is grammar.reserved_syntax_strings[value])',
                   'implies(not (type_.value.contains_syntax and value in grammar.reserved_syntax_strings), result is type_)'],
          props=['C06'])
+
+# ---- C01: the parser turns a token into exactly one leaf carrying the token's text, prefix and position
+LEAF_OF_TOKEN = ['result is not None', 'result.value == value', 'result.prefix == prefix',
+                 'result.line == start_pos[0]', 'result.column == start_pos[1]']
+contract('parso.python.parser.Parser.convert_leaf',
+         params={'self': 'ref:Parser', 'type': 'ref', 'value': 'str', 'prefix': 'str', 'start_pos': 'pos'},
+         returns='ref:Leaf', requires=['self._pgen_grammar is not None'], ensures=LEAF_OF_TOKEN, props=['C01', 'C03'])
+
+# ---- C02 / C01: the engine's stack discipline (safety of _add_token / _pop, one leaf per token)
+class_fields('StackNode', dfa='ref:DFAState', nodes='list:ref:NodeOrLeaf')
+class_fields('DFAState', transitions='map:any:ref:DFAPlan', is_final='bool', from_rule='str')
+class_fields('DFAPlan', next_dfa='ref:DFAState', dfa_pushes='list:ref:DFAState')
+class_fields('BaseParser', stack='list:ref:StackNode', _pgen_grammar='ref:Grammar')
+
+STACK_WF = ('forall(lambda k: implies(0 <= k and k < len(self.stack), self.stack[k] is not None and '
+            'self.stack[k].dfa is not None and self.stack[k].nodes is not None and self.stack[k].nodes is not self.stack), '
+            'trigger=lambda k: self.stack[k])')
+# generated tables: every plan has a target state and a list of pushed states (T obligations tab:*:plan-chains)
+TABLES_WF = ("forall(lambda d, t: implies(d is not None and t in d.transitions, d.transitions[t] is not None and "
+             "d.transitions[t].next_dfa is not None and d.transitions[t].dfa_pushes is not None), "
+             "kinds=dict(d='ref:DFAState', t='any'))")
+PUSHES_WF = ("forall(lambda p, k: implies(p is not None and p.dfa_pushes is not None and 0 <= k and k < len(p.dfa_pushes), "
+             "p.dfa_pushes[k] is not None), kinds=dict(p='ref:DFAPlan', k='int'))")
+# the lists inside the generated tables are not the parser's working lists
+DISJOINT = ("forall(lambda p, j: implies(p is not None, p.dfa_pushes is not self.stack and "
+            "implies(0 <= j and j < len(self.stack), p.dfa_pushes is not self.stack[j].nodes)), kinds=dict(p='ref:DFAPlan', j='int'))")
+ROOT_OPEN = 'not self.stack[0].dfa.is_final'      # the start rule is complete only after ENDMARKER, which is the last token
+
+contract('parso.parser.StackNode.__init__', params={'self': 'ref:StackNode', 'dfa': 'ref:DFAState'},
+         ensures=['self.dfa is dfa', 'self.nodes is not None', 'len(self.nodes) == 0'],
+         modifies=['self.dfa', 'self.nodes'], props=['C02'])
+
+contract('parso.parser.BaseParser._pop', params={'self': 'ref:BaseParser'},
+         requires=['self.stack is not None', 'len(self.stack) >= 2', STACK_WF],
+         ensures=['len(self.stack) == old(len(self.stack)) - 1',
+                  'forall(lambda k: implies(0 <= k and k < len(self.stack), self.stack[k] is old(self.stack[k])), trigger=lambda k: self.stack[k])',
+                  'len(self.stack[len(self.stack) - 1].nodes) == old(len(self.stack[len(self.stack) - 2].nodes)) + 1'],
+         lists=['self.stack', 'self.stack[len(self.stack) - 2].nodes'], props=['C02', 'C01'])
+
+contract('parso.parser.BaseParser.convert_node',
+         params={'self': 'ref:BaseParser', 'nonterminal': 'str', 'children': 'list:ref:NodeOrLeaf'}, returns='ref:BaseNode',
+         trusted=True, ensures=['result is not None'], modifies=['parent'], lists=[],
+         note='assumed: builds a node object (dynamic class lookup in node_map); only non-nullness is used')
+contract('parso.parser.BaseParser.convert_leaf',
+         params={'self': 'ref:BaseParser', 'type_': 'ref', 'value': 'str', 'prefix': 'str', 'start_pos': 'pos'},
+         returns='ref:Leaf', trusted=True, ensures=LEAF_OF_TOKEN, lists=[],
+         note='dynamic dispatch: the override Parser.convert_leaf is verified against the same postcondition')
+contract('parso.parser.BaseParser.error_recovery', params={'self': 'ref:BaseParser', 'token': 'ref:PythonToken'},
+         trusted=True, requires=[], ensures=['self.stack is not None', 'len(self.stack) >= 1', STACK_WF],
+         raises=['ParserSyntaxError', 'NotImplementedError', 'InternalParseError'], modifies=['dfa', 'parent', 'stack'], lists=None,
+         note='assumed (dynamic dispatch to Parser.error_recovery): re-establishes the stack shape; not verified')
+
+# _add_token: no IndexError / AttributeError / KeyError escapes; the stack keeps its shape; InternalParseError only
+# when the stack runs empty.  Precondition "the root entry is not complete" is what the token-stream contract
+# (ENDMARKER is last) and the table facts (start rules end with ENDMARKER) give: assumed here.
+contract('parso.parser.BaseParser._add_token', params={'self': 'ref:BaseParser', 'token': 'ref:PythonToken'},
+         requires=['token is not None', 'token.type is not None', 'token.type.value is not None',
+                   'self._pgen_grammar is not None', 'self.stack is not None', 'len(self.stack) >= 1', STACK_WF,
+                   TABLES_WF, PUSHES_WF, DISJOINT, ROOT_OPEN],
+         ensures=['self.stack is not None', 'len(self.stack) >= 1', STACK_WF],
+         raises=['ParserSyntaxError', 'NotImplementedError', 'InternalParseError'],
+         loops={0: dict(invariant=['stack is self.stack', 'stack is not None', STACK_WF, TABLES_WF, PUSHES_WF, DISJOINT,
+                                   'len(stack) == 0 or ' + ROOT_OPEN],
+                        decreases='len(self.stack) + 1'),
+                1: dict(invariant=['stack is self.stack', 'stack is not None', 'len(stack) >= 1', STACK_WF, PUSHES_WF,
+                                   'plan is not None and plan.dfa_pushes is not None and stack is not plan.dfa_pushes'],
+                        len_stable=True, lists_modified=['stack'])},
+         props=['C02', 'C01'])
